@@ -731,7 +731,7 @@ func (fs *fsMutable) createNode(lk []byte, parentINode fuseops.InodeID, childNam
 		attr:              attr,
 	})
 
-	if nodeType == fuseutil.DT_Directory {
+	if nodeType == fuseutil.DT_Directory && !isRoot {
 		// Increment parent ref count.
 		p, _ := fs.iNodeStore.Get(formKey(parentINode))
 		parentNodeEntry := p.(*nodeEntry)
